@@ -38,8 +38,9 @@ pub const CHARS: &[u16] = &[
 pub const ATTRS: &[u16] = &[0, 0, 0, 1, 8, 0x10, 0x8000, 0x8001, 0x0208];
 
 pub fn cell_strategy() -> BoxedStrategy<CellM> {
-    let colour = prop_oneof![12 => 0u32..16, 1 => 16u32..20, 1 => Just(TextAttribute::TRANSPARENT_COLOR)];
-    let colour2 = prop_oneof![12 => 0u32..16, 1 => 16u32..20, 1 => Just(TextAttribute::TRANSPARENT_COLOR)];
+    // colours beyond the palette and the transparent flag are boundary values: set_palette_mode indexes its tables with them
+    let colour = prop_oneof![40 => 0u32..16, 1 => 16u32..20, 1 => Just(TextAttribute::TRANSPARENT_COLOR)];
+    let colour2 = prop_oneof![40 => 0u32..16, 1 => 16u32..20, 1 => Just(TextAttribute::TRANSPARENT_COLOR)];
     (0usize..CHARS.len(), 0usize..ATTRS.len(), colour, colour2, prop_oneof![8 => Just(0u8), 2 => Just(1u8), 1 => Just(2u8)])
         .prop_map(|(c, a, fg, bg, font)| CellM { ch: CHARS[c], attr: ATTRS[a], fg, bg, font })
         .boxed()
@@ -141,7 +142,7 @@ pub fn layer_strategy() -> BoxedStrategy<LayerM> {
     let misc = (
         prop_oneof![4 => Just(0u8), 1 => any::<u8>()],
         prop_oneof![6 => Just(0u8), 1 => Just(1u8)],
-        prop_oneof![1 => Just(0u8), 1 => Just(1u8)],
+        prop_oneof![3 => Just(0u8), 1 => Just(1u8)],
     );
     let cells = prop::collection::vec((0u8..30, 0u8..20, cell_strategy()), 0..=14);
     (geom, flags, misc, cells)
@@ -222,9 +223,9 @@ impl PalM {
 
 pub fn pal_strategy() -> BoxedStrategy<PalM> {
     prop_oneof![
-        3 => Just(PalM::Dos),
-        1 => prop::collection::vec((any::<u8>(), any::<u8>(), any::<u8>()), 1..=20).prop_map(PalM::Custom),
-        1 => prop::collection::vec((any::<u8>(), any::<u8>(), any::<u8>()), 16..=20).prop_map(PalM::Custom),
+        12 => Just(PalM::Dos),
+        1 => prop::collection::vec((any::<u8>(), any::<u8>(), any::<u8>()), 1..=15).prop_map(PalM::Custom),
+        7 => prop::collection::vec((any::<u8>(), any::<u8>(), any::<u8>()), 16..=20).prop_map(PalM::Custom),
     ]
     .boxed()
 }
@@ -370,14 +371,14 @@ impl BufSize for Buffer {
 
 pub fn doc_strategy() -> BoxedStrategy<DocM> {
     let size = (12u8..=30, 8u8..=20);
-    let layers = prop_oneof![3 => prop::collection::vec(layer_strategy(), 1..=1), 4 => prop::collection::vec(layer_strategy(), 2..=2), 3 => prop::collection::vec(layer_strategy(), 3..=3)];
+    let layers = prop_oneof![2 => prop::collection::vec(layer_strategy(), 1..=1), 4 => prop::collection::vec(layer_strategy(), 2..=2), 3 => prop::collection::vec(layer_strategy(), 3..=3)];
     let modes = (
         prop_oneof![3 => Just(0u8), 1 => Just(1u8), 1 => Just(2u8)],
         prop_oneof![1 => Just(0u8), 4 => Just(1u8), 1 => Just(2u8), 1 => Just(3u8)],
-        prop_oneof![4 => Just(0u8), 2 => Just(1u8), 1 => Just(2u8), 1 => Just(3u8)],
+        prop_oneof![10 => Just(0u8), 2 => Just(1u8), 1 => Just(2u8), 1 => Just(3u8)],
         prop_oneof![5 => Just(0u8), 1 => Just(1u8)],
     );
-    let fonts = prop_oneof![2 => Just(vec![]), 2 => (0u8..42).prop_map(|s| vec![(1u8, s)]), 1 => (0u8..42, 0u8..42).prop_map(|(a, b)| vec![(1u8, a), (2u8, b)])];
+    let fonts = prop_oneof![1 => Just(vec![]), 2 => (0u8..42).prop_map(|s| vec![(1u8, s)]), 1 => (0u8..42, 0u8..42).prop_map(|(a, b)| vec![(1u8, a), (2u8, b)])];
     let sel = (prop::option::weighted(0.5, sel_strategy()), prop::collection::vec((0i8..20, 0i8..12, 1u8..6, 1u8..5), 0..=2));
     let caret = ((prop_oneof![6 => 0i8..=11, 1 => -2i8..=31], prop_oneof![6 => 0i8..=7, 1 => -2i8..=21]), prop_oneof![5 => Just(0u8), 1 => Just(1u8)], 0u8..=3, prop::bool::weighted(0.1));
     (size, layers, modes, pal_strategy(), fonts, prop::option::weighted(0.3, sauce_strategy()), sel, caret)
